@@ -6,6 +6,7 @@ mod tmomc;
 mod histmc;
 mod schedmc;
 mod heapmc;
+mod modmc;
 mod workers;
 mod run;
 mod hostobj;
@@ -55,6 +56,7 @@ fn main() {
         "histmc" => histmc::run(&args),
         "schedmc" => schedmc::run(&args),
         "heapmc" => heapmc::run(&args),
+        "modmc" => modmc::run(&args),
         "progmc-core" => progmc::run_profile(
             &args,
             run::RunCfg::default(),
